@@ -1,4 +1,4 @@
-HOOK_COMMITS = []
+HOOK_COMMITS = ["6be8cca"]
 NOTES = ("Every check regenerates the Coq tables from /repo's working tree, rebuilds the property's proof cone with coqc, "
          "audits for Admitted/Axiom/etc., rebuilds the harness against /repo and runs the model/implementation correspondence. "
          "See DESIGN.md.")
@@ -53,6 +53,14 @@ CHECKS.append({
     "design_ref": "DESIGN.md §4 C10",
     "note": "Trusted: Coq kernel + Flocq (standard-library real-number axioms under Print Assumptions for the two float theorems), translator, extraction + drivers; hand-written lexer model tied by correspondence; Rust's str::parse::<f64> correct-rounding contract is checked, not proved. 'Value appears unchanged in the output' (formatter Display) is C09's literal round trip.",
     "technique": "Coq proof (structural bounds on every recogniser, induction over the token stream, Flocq rounding theorems) + regenerated tables + model/implementation correspondence",
+})
+
+CHECKS.append({
+    "property_id": "C15",
+    "text": "Coq theorems over an executable model of NameMap::build: for every reserved list, scope and symbol set the generator terminates (pigeonhole bound on the suffix search), names within a scope are pairwise distinct and never reserved, a name that is unique in its scope and not reserved is kept verbatim, every symbol is named, and a local never receives a reserved name or a name generated for a global symbol; both reserved lists are regenerated from the exporters and must consist of well-formed identifiers. Four defects were repaired (unique f_0 renamed next to an overload set; \"SamplerState,\" typo; namespaces declared under their source name but referenced under the generated one; Metal address-space keywords not reserved). The generated name of every symbol is compared with the implementation on programs built from both reserved lists, name_N forms and cross-scope clashes; every reserved name is additionally probed in 13 declaration positions on the emitted HLSL and MSL text.",
+    "design_ref": "DESIGN.md §4 C15",
+    "note": "Partial: renaming equivariance and reference preservation are not proved. Names the generator never manages (struct members, enum values, cbuffer names, cbuffer members, template parameters) are emitted verbatim even when reserved: five known findings, probed on every run. Trusted: Coq kernel, translator, extraction + drivers, the exporters' RESERVED_NAMES as the definition of 'reserved'.",
+    "technique": "Coq proof (pigeonhole termination, freshness invariant over the scope fold) + regenerated reserved lists + model/implementation correspondence + emitted-text probes",
 })
 
 _claimed = {c["property_id"] for c in CHECKS}
